@@ -11,7 +11,7 @@ pub fn def() -> PropDef {
     PropDef {
         info: PropInfo {
             id: "C17",
-            rule: "slots: every 8-byte slot value is decoded by ebpf::get_insn / to_insn_vec and re-encoded by Insn::to_array / to_vec and compared with an independent encoder/decoder (exhaustive per field: 256 opcodes x 256 register bytes, all 65536 offsets, boundary + random immediates in quick, all 2^32 immediates in thorough; all 256 x 256 ordered pairs of opcodes in adjacent slots with non-zero fields; random full slots at random indices of random-length programs via proptest; for every program the vector decoder ebpf::to_insn_vec must give, at every index, the independent decoding of that slot and re-encode to the program). builder: every insn_builder constructor x parameters x field values compared with the reference encoding of the expected opcode, with Insn::to_vec, and with assemble() of the matching text when unused fields are zero. Non-trivial = slot with a non-zero register byte, offset or immediate (enumerations are distinct by construction; random cases distinct by hash).",
+            rule: "slots: every 8-byte slot value is decoded by ebpf::get_insn / to_insn_vec and re-encoded by Insn::to_array / to_vec and compared with an independent encoder/decoder (exhaustive per field: 256 opcodes x 256 register bytes, all 65536 offsets, boundary + random immediates in quick, all 2^32 immediates in thorough; all 256 x 256 ordered pairs of opcodes in adjacent slots with non-zero fields; pseudo-random programs of 65,535 - 1,048,579 slots (lengths around 2^16, the crate's 1,000,000-instruction limit and 2^20); random full slots at random indices of random-length programs via proptest; for every program the vector decoder ebpf::to_insn_vec must give, at every index, the independent decoding of that slot and re-encode to the program). builder: every insn_builder constructor x parameters x field values compared with the reference encoding of the expected opcode, with Insn::to_vec, and with assemble() of the matching text when unused fields are zero. Non-trivial = slot with a non-zero register byte, offset or immediate (enumerations are distinct by construction; random cases distinct by hash).",
             assumptions: &[
                 "reference encoder/decoder in harness/vrun/src/isa.rs is written independently (to_le_bytes) and is itself correct",
                 "builder constructors that do not denote an instruction (load() with a size other than double word, jump_conditional(Abs, Reg)) are outside the property",
@@ -26,6 +26,14 @@ pub fn def() -> PropDef {
 // ---- slot checks ---------------------------------------------------------------------------
 
 fn check_slot_in_prog(prog: &[u8], idx: usize) -> Verdict {
+    let v = check_slot_only(prog, idx);
+    if !matches!(v, Verdict::Pass) {
+        return v;
+    }
+    check_whole_prog(prog)
+}
+
+fn check_slot_only(prog: &[u8], idx: usize) -> Verdict {
     let slot = &prog[idx * 8..idx * 8 + 8];
     let want = ref_decode(slot);
     let p2 = prog.to_vec();
@@ -47,7 +55,15 @@ fn check_slot_in_prog(prog: &[u8], idx: usize) -> Verdict {
     if v[..] != slot[..] {
         return Verdict::fail("to_vec-mismatch", format!("slot {} re-encoded by to_vec as {}", isa::hex(slot), isa::hex(&v)));
     }
-    check_whole_prog(prog)
+    Verdict::Pass
+}
+
+fn short(b: &[u8]) -> String {
+    if b.len() <= 512 {
+        isa::hex(b)
+    } else {
+        format!("{}... ({} bytes)", isa::hex(&b[..64]), b.len())
+    }
 }
 
 /// The vector decoder: one entry per slot, each equal to the independent decoding of that slot
@@ -56,10 +72,10 @@ fn check_whole_prog(prog: &[u8]) -> Verdict {
     let p2 = prog.to_vec();
     let all = match catch(move || rbpf::ebpf::to_insn_vec(&p2)) {
         Ok(g) => g,
-        Err(m) => return Verdict::fail(format!("to_insn_vec:{}", panic_signature(&m)), format!("ebpf::to_insn_vec panicked on {}: {m}", isa::hex(prog))),
+        Err(m) => return Verdict::fail(format!("to_insn_vec:{}", panic_signature(&m)), format!("ebpf::to_insn_vec panicked on {}: {m}", short(prog))),
     };
     if all.len() != prog.len() / 8 {
-        return Verdict::fail("to_insn_vec:length", format!("ebpf::to_insn_vec returned {} entries for {} slots: {}", all.len(), prog.len() / 8, isa::hex(prog)));
+        return Verdict::fail("to_insn_vec:length", format!("ebpf::to_insn_vec returned {} entries for {} slots: {}", all.len(), prog.len() / 8, short(prog)));
     }
     let mut back_a = Vec::with_capacity(prog.len());
     let mut back_v = Vec::with_capacity(prog.len());
@@ -69,14 +85,14 @@ fn check_whole_prog(prog: &[u8]) -> Verdict {
         if (got.opc, got.dst, got.src, got.off, got.imm) != (want.opc, want.dst, want.src, want.off, want.imm) {
             return Verdict::fail(
                 "to_insn_vec:decode-mismatch",
-                format!("program {}: to_insn_vec[{k}] -> {got:?}, reference decoding of slot {} -> {want:?}", isa::hex(prog), isa::hex(slot)),
+                format!("program {}: to_insn_vec[{k}] -> {got:?}, reference decoding of slot {} -> {want:?}", short(prog), isa::hex(slot)),
             );
         }
         back_a.extend_from_slice(&got.to_array());
         back_v.extend_from_slice(&got.to_vec());
     }
     if back_a != prog || back_v != prog {
-        return Verdict::fail("to_insn_vec:reencode-mismatch", format!("program {} re-encoded as {} / {}", isa::hex(prog), isa::hex(&back_a), isa::hex(&back_v)));
+        return Verdict::fail("to_insn_vec:reencode-mismatch", format!("program {} re-encoded as {} / {}", short(prog), short(&back_a), short(&back_v)));
     }
     Verdict::Pass
 }
@@ -560,6 +576,33 @@ fn run(ctx: &Ctx) {
                 }
             }
         }
+        // program lengths around the crate's instruction limit and around 2^20: the decoders have
+        // no business knowing about the verifier's limit
+        if ctx.worker == 0 {
+            for nslots in [65_535usize, 65_536, 65_537, 999_999, 1_000_000, 1_000_001, 1 << 20, (1 << 20) + 3] {
+                let mut prog = Vec::with_capacity(nslots * 8);
+                let mut x = 0x9e37_79b9_7f4a_7c15u64 ^ nslots as u64;
+                for _ in 0..nslots {
+                    x ^= x << 13;
+                    x ^= x >> 7;
+                    x ^= x << 17;
+                    prog.extend_from_slice(&x.to_le_bytes());
+                }
+                let mut v = check_whole_prog(&prog);
+                if matches!(v, Verdict::Pass) {
+                    v = check_slot_only(&prog, nslots - 1);
+                }
+                {
+                    let mut st = ctx.stats();
+                    st.eval();
+                    st.class("enum:long-program-length");
+                    st.distinct_by_construction += 1;
+                }
+                if ctx.enumerate_case(v, "xorshift", || json!({"nslots": nslots})) {
+                    return;
+                }
+            }
+        }
         // all 65536 offsets
         for o in 0u32..65536 {
             if o as u64 % n != w {
@@ -685,6 +728,18 @@ fn replay(_ctx: &Ctx, kind: &str, case: &Value) -> Verdict {
                 return Verdict::Discard("bad-replay");
             }
             check_slot_in_prog(&prog, idx)
+        }
+        "xorshift" => {
+            let nslots = case["nslots"].as_u64().unwrap_or(1) as usize;
+            let mut prog = Vec::with_capacity(nslots * 8);
+            let mut x = 0x9e37_79b9_7f4a_7c15u64 ^ nslots as u64;
+            for _ in 0..nslots {
+                x ^= x << 13;
+                x ^= x >> 7;
+                x ^= x << 17;
+                prog.extend_from_slice(&x.to_le_bytes());
+            }
+            check_whole_prog(&prog)
         }
         "fields" => check_fields(Insn {
             opc: case["opc"].as_u64().unwrap_or(0) as u8,
